@@ -256,6 +256,72 @@ def run_modes(res, scratch, rng):
         s0.discard()
 
 
+def run_io_fault_leftovers(res, scratch, rng, tier):
+    """An operation that raises because the OS failed one of its I/O calls must not leave temporary files behind
+    either (the property says: once it has returned or raised)."""
+    import errno
+
+    from .. import ioproxy
+    from . import c13
+
+    cfg = default_config("csv", rng.random() < 0.5)
+    s = Session(cfg, scratch)
+    prof = Profile(reindex=0, reopen=0)
+    prof.allow_no_time = False
+    try:
+        with quiet_stdout():
+            for _ in range(rng.randint(4, 8)):
+                s.do({"op": "insert", "p": gen.gen_point(rng, gen.MEAS, False)})
+            for step in range(4):
+                op = gen_write_op(rng, s.model, prof)
+                if op["op"] in ("update", "update_all", "remove", "drop_measurement"):
+                    dry = s.clone()
+                    rec = ioproxy.Recorder()
+                    try:
+                        c13.run_with_monitor(dry, op, rec)
+                    finally:
+                        dry.discard()
+                    n = len(rec.events)
+                    ks = sorted(set(range(max(0, n - 14), n)) | set(rng.sample(range(n), min(n, 4)))) if n else []
+                    for k in ks:
+                        ev = rec.events[k]
+                        if ev.kind == "unlink":
+                            # the OS refusing the removal of the temporary file itself necessarily leaves it behind
+                            res.count("io_fault_at_unlink_not_injected")
+                            continue
+                        for when in (["before", "after"] if ev.kind in c13.AFTER_EFFECT else ["before"]):
+                            t = s.clone()
+                            try:
+                                w = Watch(t, scratch)
+                                before = w.snap()
+                                mon = c13.FaultAt(k, when, rng.choice([errno.ENOSPC, errno.EIO, errno.EACCES]))
+                                out = c13.run_with_monitor(t, op, mon)
+                                after = w.snap()
+                                if mon.hit is None or out.exc is None:
+                                    continue
+                                res.evaluations += 1
+                                res.count("io_fault_leftover_checks")
+                                res.count(f"io_fault_at.{ev.target}.{ev.kind}")
+                                me = os.path.basename(t.path)
+                                new_db = sorted(set(after["dbdir"]) - set(before["dbdir"]) - {me})
+                                new_tmp = sorted(set(after["tmp"]) - set(before["tmp"]))
+                                if new_db or new_tmp:
+                                    res.violate(Violation(
+                                        "C15", "operation-left-files-behind",
+                                        {"config": cfg_name(cfg), "op": op if "q" not in op else dict(op, q=qast.show(op["q"])),
+                                         "class": "raised-after-io-error", "fault": f"{when}:{ev!r}", "raised": type(out.exc).__name__,
+                                         "new_in_temp_dir": new_tmp[:4], "new_in_db_dir": new_db[:4]},
+                                        replay={"cfg": cfg, "ops": list(t.log), "fault": f"{when}@{k}"},
+                                        features={"op": op["op"], "class": "raised-after-io-error", "where": "tmp" if new_tmp else "dbdir"},
+                                    ))
+                                    return
+                            finally:
+                                t.discard()
+                s.do(op)
+    finally:
+        s.discard()
+
+
 def run_vanished_file(res, scratch, rng):
     """The database file is unlinked by someone else while the database is open: whatever the calls then do
     (return or raise), they must not leave temporary files behind."""
@@ -323,10 +389,13 @@ def run(res, tier, seed, shard, nshards):
             run_modes(res, scratch, rng_for("C15", tier, seed, shard, "modes", h))
         for h in range(2 if tier == "quick" else 12):
             run_vanished_file(res, scratch, rng_for("C15", tier, seed, shard, "vanished", h))
+        for h in range(2 if tier == "quick" else 20):
+            run_io_fault_leftovers(res, scratch, rng_for("C15", tier, seed, shard, "iofault", h), tier)
     for k in ("read", "noop-write", "rejected-write"):
         res.require(f"bytes_unchanged_checks.{k}")
     res.require("listing_checks_after_raising_call")
     res.require("vanished_file_calls")
+    res.require("io_fault_leftover_checks")
     res.require("listing_checks")
     res.require("rejected_write_checks")
     for m in ("r", "r+", "a", "w+"):
